@@ -60,3 +60,20 @@ def single_sym(r):
     if st and st[0] == 1 and len(st[1]) == 1 and st[1][0][1] == 1 and st[1][0][0][0] == "sym":
         return st[1][0][0][1]
     return None
+
+
+def gradient_lists_in_order(fn, names):
+    """Every loop / comprehension that walks one of the gradient lists iterates the bare list (no slicing,
+    reversal or sorting), so that entry k of the result belongs to hyper-parameter k.  Returns problems."""
+    problems = []
+    for n in ast.walk(fn):
+        its = []
+        if isinstance(n, ast.For):
+            its.append(n.iter)
+        elif isinstance(n, (ast.ListComp, ast.GeneratorExp)):
+            its.extend(g.iter for g in n.generators)
+        for it in its:
+            used = {x.id for x in ast.walk(it) if isinstance(x, ast.Name)} & set(names)
+            if used and not isinstance(it, ast.Name):
+                problems.append(f"`{ast.unparse(it)}` (line {it.lineno}) re-orders or subsets the gradient list {sorted(used)}")
+    return problems
